@@ -484,6 +484,7 @@ type FuncContract struct {
 	Logical   []CParam
 	Requires  []Clause
 	Ensures   []Clause
+	Defines   []Clause // definitional postconditions: introduce a ghost/uninterpreted notion at this function; assumed at call sites, not checked against the body
 	Modifies  []Clause
 	ModAll    bool
 	Pure      bool
@@ -499,6 +500,7 @@ type FuncContract struct {
 	Lets      []letDef
 	ReplayExpr string // Go boolean expression over p_<param> / r_<result>: the postcondition, for replaying models
 	ReplayHelp string // helper file under /verif/replay appended to the generated test
+	Atomic     bool
 }
 
 type letDef struct {
@@ -544,7 +546,7 @@ var clauseKeywords = map[string]bool{
 	"property": true, "spec": true, "axiom": true, "lemma": true, "func": true, "requires": true, "ensures": true,
 	"modifies": true, "pure": true, "inline": true, "assume": true, "loop": true, "invariant": true, "decreases": true,
 	"unroll": true, "logical": true, "sort": true, "noreturn": true, "nilable": true, "trusted": true, "alloc_bound": true,
-	"const": true, "opaque": true, "nilchecks": true, "let": true, "ghost": true, "ghostfield": true, "macro": true, "mapinv": true, "replay": true, "replayhelp": true,
+	"const": true, "opaque": true, "nilchecks": true, "let": true, "ghost": true, "ghostfield": true, "macro": true, "mapinv": true, "replay": true, "replayhelp": true, "atomic": true, "defines": true,
 }
 
 type rawClause struct {
@@ -735,7 +737,7 @@ func (db *ContractDB) LoadFile(path string) error {
 				return fmt.Errorf("%s:%d: clause %q outside a func", path, rc.line, rc.kw)
 			}
 			switch rc.kw {
-			case "requires", "ensures", "invariant", "decreases":
+			case "requires", "ensures", "invariant", "decreases", "defines":
 				cl, err := mkClause(rc)
 				if err != nil {
 					return err
@@ -745,6 +747,8 @@ func (db *ContractDB) LoadFile(path string) error {
 					cur.Requires = append(cur.Requires, cl)
 				case "ensures":
 					cur.Ensures = append(cur.Ensures, cl)
+				case "defines":
+					cur.Defines = append(cur.Defines, cl)
 				case "invariant":
 					if curLoop == nil {
 						return fmt.Errorf("%s:%d: invariant outside loop", path, rc.line)
@@ -800,6 +804,8 @@ func (db *ContractDB) LoadFile(path string) error {
 				cur.ReplayExpr = strings.TrimSpace(rc.text)
 			case "replayhelp":
 				cur.ReplayHelp = strings.TrimSpace(rc.text)
+			case "atomic":
+				cur.Atomic = true
 			case "pure":
 				cur.Pure = true
 			case "inline":
